@@ -38,7 +38,51 @@ func g8BodyHash(segs [][]byte) []byte {
 	return h[:]
 }
 
+// g8Indef re-encodes a definite-length array / map (short header form) with indefinite length:
+// the same content in other bytes.
+func g8Indef(seg []byte) []byte {
+	switch {
+	case seg[0] >= 0x80 && seg[0] <= 0x97:
+		return append(append([]byte{0x9f}, seg[1:]...), 0xff)
+	case seg[0] >= 0xa0 && seg[0] <= 0xb7:
+		return append(append([]byte{0xbf}, seg[1:]...), 0xff)
+	}
+	return append([]byte{}, seg...)
+}
+
+// g8TxBody is a minimal transaction body every era decodes: one input, one legacy output, a fee.
+func g8TxBody() []byte {
+	in := c40Atom("txin")
+	addr, _ := common.NewAddressFromParts(common.AddressTypeKeyNone, common.AddressNetworkMainnet, make([]byte, 28), nil)
+	ab, _ := addr.Bytes()
+	b, err := cbor.Encode(map[uint]any{
+		0: []any{[]any{in, uint64(0)}},
+		1: []any{[]any{ab, uint64(1000000)}},
+		2: uint64(200000),
+		3: uint64(99999999),
+	})
+	if err != nil {
+		panic(err)
+	}
+	return b
+}
+
+// the body hash of the era: Dijkstra hashes the block_body element itself, the earlier eras the
+// concatenation of the per-segment hashes
+func g8BodyHashOf(dijkstra bool, segs [][]byte) []byte {
+	if dijkstra {
+		h := blake2b.Sum256(segs[0])
+		return h[:]
+	}
+	return g8BodyHash(segs)
+}
+
 func g8RunC40Block(f []string) string {
+	withTx := false
+	if len(f) > 1 && strings.HasSuffix(f[1], "+tx") {
+		withTx = true
+		f = append([]string{f[0], strings.TrimSuffix(f[1], "+tx")}, f[2:]...)
+	}
 	era, okEra := g8Eras[f[1]]
 	if len(f) < 8 || !okEra {
 		return "bad-op"
@@ -82,7 +126,23 @@ func g8RunC40Block(f []string) string {
 	}
 	u := c40Get(useed)
 	blockType := era.blockType
-	segs := [][]byte{{0x80}, {0x80}, {0xa0}, {0x80}}[:era.nseg]
+	isDijkstra := era.blockType == uint(ledger.BlockTypeDijkstra)
+	var segs [][]byte
+	switch {
+	case isDijkstra && withTx:
+		// block_body = [invalid_transactions / nil, [transaction], leios / nil, peras / nil]
+		body := []byte{0x84, 0xf6, 0x81, 0x83}
+		body = append(body, g8TxBody()...)
+		body = append(body, 0xa0, 0xf6, 0xf6, 0xf6)
+		segs = [][]byte{body}
+	case isDijkstra:
+		segs = [][]byte{{0x84, 0xf6, 0x80, 0xf6, 0xf6}}
+	case withTx:
+		// transaction_bodies, witness_sets, auxiliary data, (Alonzo+) invalid transactions
+		segs = [][]byte{append([]byte{0x81}, g8TxBody()...), {0x81, 0xa0}, {0xa0}, {0x80}}[:era.nseg]
+	default:
+		segs = [][]byte{{0x80}, {0x80}, {0xa0}, {0x80}}[:era.nseg]
+	}
 	segs = append([][]byte{}, segs...)
 	mode := consensus.ConsensusModeCPraos
 	if tpraos {
@@ -106,7 +166,7 @@ func g8RunC40Block(f []string) string {
 	proto := era.proto
 	hdr, _, err := builder.BuildHeader(consensus.BuildHeaderInput{
 		Slot: slot, BlockNumber: 77, PrevHash: c40Atom("prev"), EpochNonce: nonce,
-		PoolStake: stake, TotalStake: stake, BlockBodyHash: g8BodyHash(segs), BlockBodySize: bodySize,
+		PoolStake: stake, TotalStake: stake, BlockBodyHash: g8BodyHashOf(isDijkstra, segs), BlockBodySize: bodySize,
 		ProtoMajor: proto, ProtoMinor: 0,
 	})
 	if err != nil {
@@ -193,11 +253,7 @@ func g8RunC40Block(f []string) string {
 	}
 	if kind == "seg" {
 		// the same (empty) container, encoded with indefinite length: other bytes, same content
-		if segs[segIdx][0] == 0x80 {
-			segs[segIdx] = []byte{0x9f, 0xff}
-		} else {
-			segs[segIdx] = []byte{0xbf, 0xff}
-		}
+		segs[segIdx] = g8Indef(segs[segIdx])
 	}
 	sigCbor, _ := cbor.Encode(sig)
 	blk := []byte{0x80 + byte(1+len(segs)), 0x82}
@@ -290,6 +346,9 @@ func g8GenC40Block(r *Rand, emit func(string), useed string) {
 	}
 	tam := "none"
 	if edge && r.Chance(2, 3) {
+		if r.Chance(1, 2) {
+			mode += "+tx"
+		}
 		emit(fmt.Sprintf("blk %s %s %d %d %d %d %s", mode, useed, slot, spk, ocPeriod, kesT, tam))
 		return
 	}
@@ -303,6 +362,9 @@ func g8GenC40Block(r *Rand, emit func(string), useed string) {
 		tam = fmt.Sprintf("seg %d", r.Intn(g8Eras[mode].nseg))
 	case 3, 4:
 		tam = fmt.Sprintf("flip %d %d", r.Intn(900), r.Intn(8))
+	}
+	if r.Chance(1, 2) {
+		mode += "+tx"
 	}
 	emit(fmt.Sprintf("blk %s %s %d %d %d %d %s", mode, useed, slot, spk, ocPeriod, kesT, tam))
 }
